@@ -2,7 +2,7 @@
 META = {
     "level": 'exploration',
     "technique": 'differential testing of every real derivation function and of the client/upload/mutable call chains against a hashlib-only reimplementation written from the specification text, plus the 4 published lease vectors',
-    "text": 'Executes the real hashutil functions (tagged hashes, storage index, SSK chain, write enablers, lease renewal/cancel chain, convergence key, dirnode child-cap key/salt, block/UEB/plaintext/crypttext hashers, server permutation), the uri.py cap classes, derive_mutable_keys, SecretHolder/_Client.init_secrets, Tahoe2ServerSelector.get_shareholders, immutable Checker(add_lease), MutableFileNode.get_write_enabler/get_renewal_secret/get_cancel_secret and `tahoe debug dump-cap` on seeded random inputs of the documented lengths and on edge lengths; every output is compared byte-for-byte with a reference that uses only hashlib and tag strings re-typed from docs/specifications (lease.rst, file-encoding.rst, derive_renewal_secret.py) and the hashutil.py tag table. Servers in the chain cases have tubid != permutation seed != server id, so a wrong seed choice is visible. Directory child-cap keys are additionally decided on stored bytes: SDMF and MDMF directories are created on an in-process grid through create_dirnode (with and without initial_children), create_subdirectory(initial_children), set_node/set_uri/set_children/set_nodes and a later re-pack; the directory file is downloaded by a fresh client, split into netstrings by the check and every rwcap slot is opened with a hashlib-derived key from the directory write key; it must be the child write cap. Sampled, not exhaustive.',
+    "text": 'Executes the real hashutil functions (tagged hashes, storage index, SSK chain, write enablers, lease renewal/cancel chain, convergence key, dirnode child-cap key/salt, block/UEB/plaintext/crypttext hashers, server permutation), the uri.py cap classes, derive_mutable_keys, SecretHolder/_Client.init_secrets, Tahoe2ServerSelector.get_shareholders, immutable Checker(add_lease), MutableFileNode.get_write_enabler/get_renewal_secret/get_cancel_secret and `tahoe debug dump-cap` on seeded random inputs of the documented lengths and on edge lengths; every output is compared byte-for-byte with a reference that uses only hashlib and tag strings re-typed from docs/specifications (lease.rst, file-encoding.rst, derive_renewal_secret.py) and the hashutil.py tag table. Servers in the chain cases have tubid != permutation seed != server id, so a wrong seed choice is visible. Directory child-cap keys are additionally decided on stored bytes: SDMF and MDMF directories are created on an in-process grid through create_dirnode (with and without initial_children), create_subdirectory(initial_children), set_node/set_uri/set_children/set_nodes and a later re-pack; the directory file is downloaded by a fresh client, split into netstrings by the check and every rwcap slot is opened with a hashlib-derived key from the directory write key; it must be the child write cap; the same for clones (A.list() handed to create_dirnode / create_subdirectory / set_nodes / set_children of another directory, and to create_immutable_dirnode, whose slots must be empty). Lease secrets and write enablers are also decided on what a real StorageServer stored after a real client-side upload / check --add-lease / mutable create and overwrite over the in-memory HTTP storage protocol (vf/http.py). Sampled, not exhaustive.',
     "note": 'Trusts hashlib, the 10-line reference in vf/models.py (self-checked against the 4 published vectors before any verdict), and `cryptography` AES-CTR for opening dirnode/privkey ciphertexts. For tags that the prose specification does not spell out (SSK chain, dirnode, segment hashers) the reference pins the strings of the hashutil.py tag table as of the pinned tree: the check then proves stability ("any change would make existing files unreachable"), not agreement with an external document. The wire-level comparison on a running grid is wire_compare(), to be driven by the lead.',
 }
 LEVEL = "exploration"
@@ -867,11 +867,15 @@ def run(ck):
         # ---- directory child-cap keys judged on the stored directory bytes, every creation path (vf/checks/_c17_dir.py)
         from vf.checks._c17_dir import dir_workload
         dir_workload(ck)
+        # ---- the same secrets over the HTTP storage protocol, decided on the lease records the server stored
+        from vf.checks._c17_http import http_workload
+        http_workload(ck)
     finally:
         env.set_thread_sync(True)
 
     ck.require_monitor("oracle-self-check", "derivation-oracle", "published-vector-oracle",
-                       "wire-lease-oracle", "wire-write-enabler-oracle", "dir-child-capkey-oracle")
+                       "wire-lease-oracle", "wire-write-enabler-oracle", "dir-child-capkey-oracle",
+                       "http-lease-oracle", "http-write-enabler-oracle")
     ck.require_reach("tagged_hash", "tagged_pair_hash", "storage_index_hash", "ssk_write_enabler_hash",
                      "bucket_renewal_secret_hash", "bucket_cancel_secret_hash", "convergence_hash",
                      "mutable_rwcap_key_hash", "derive_mutable_keys.writekey",
@@ -882,7 +886,9 @@ def run(ck):
                      "dir-path:create_dirnode(initial_children)", "dir-path:create_subdirectory(initial_children)",
                      "dir-path:repack-after-initial_children", "dir-path:clone:create_dirnode(A.list())",
                      "dir-path:clone:create_subdirectory(A.list())", "dir-path:clone:set_nodes(A.list())",
-                     "dir-path:clone:set_children(A.list()-derived)", "dir-path:clone:create_immutable_dirnode(A.list())")
+                     "dir-path:clone:set_children(A.list()-derived)", "dir-path:clone:create_immutable_dirnode(A.list())",
+                     "http-leases:upload.allocate_buckets", "http-leases:checker.add_lease-second-client",
+                     "http-leases:mutable-create-sdmf", "http-leases:mutable-overwrite-mdmf")
     ck.exhaustive = False
     ck.assumptions.append("tags that no prose specification spells out are pinned from the hashutil.py tag table of the pinned tree")
 
@@ -900,3 +906,8 @@ def run(ck):
 # 10. seeded/C17-4 and its twins in selftest/breaks_c17.py (mkdir-with-children packs under the READ key / storage index;
 #     DirectoryNode._pack_contents under the READ key; salt and key swapped at the call site)            -> caught by the
 #     stored-bytes directory workload (vf/checks/_c17_dir.py), keys dir-child-capkey-not-from-writekey:<creation path>
+# 11. seeded/C17-5 + twin (A.list() passed as initial_children keeps A's pre-packed entries)      -> caught by the clone paths
+#     of vf/checks/_c17_dir.py (dir-child-capkey-not-from-writekey:clone:*, dir-immutable-has-rwcap-slot:clone:*)
+# 12. seeded/C17-6 + twins (renew/cancel secrets exchanged in storage/http_client.py: header table, add_lease only,
+#     mutable read-test-write only)                                                                -> caught by the HTTP leg
+#     vf/checks/_c17_http.py (http-stored-renew-secret:*, http-stored-cancel-secret:*, http-lease-count:*)
